@@ -140,15 +140,18 @@ def _run_map(case, rec, rng):
                     mechanism="%s.fill_deriv_:modifies-input" % name)
         used = sorted(v for k, v in kw.items() if k in INDEX_NAMES)
         worst, selfworst = 0.0, 0.0
-        scale = max(1e-300, float(np.max(np.abs(ana))))
+        fds = {}
         for ax in range(nraw):
             if ax not in used:
                 rec.require("map_untouched_rows", np.array_equal(dfdx[ax], prefill[ax]),
                             mechanism="%s.fill_deriv_:writes-unread-row" % name)
                 continue
             h = 1e-3 * np.maximum(np.abs(x[ax]), 0.05)
-            fd1 = _fd_axis(m, x, ax, h)
-            fd2 = _fd_axis(m, x, ax, h / 2)
+            fds[ax] = (_fd_axis(m, x, ax, h), _fd_axis(m, x, ax, h / 2))
+        # derivative scale from the analytic AND the finite-difference side: an analytic derivative that is (wrongly)
+        # identically zero must not make the comparison unresolved
+        scale = max([1e-300, float(np.max(np.abs(ana)))] + [float(np.max(np.abs(f2))) for _, f2 in fds.values()])
+        for ax, (fd1, fd2) in fds.items():
             err = np.max(np.abs(fd2 - ana[ax])) / scale
             selferr = np.max(np.abs(fd2 - fd1)) / scale
             worst = max(worst, err)
